@@ -465,7 +465,7 @@ func nativeBuild(pkg, entry, tmp string) (string, string) {
 	bin := filepath.Join(tmp, "replay.test")
 	build := exec.Command("go", "test", "-c", "-o", bin, "-tags", "verif", "-vet=off", "-overlay", ovFile, "./"+pkg+"/")
 	build.Dir = RepoDir
-	build.Env = append(os.Environ(), "GOFLAGS=-mod=mod", "GOPROXY=off", "GOSUMDB=off", "GOTOOLCHAIN=local")
+	build.Env = append(os.Environ(), "GOFLAGS=-mod=readonly", "GOPROXY=off", "GOSUMDB=off", "GOTOOLCHAIN=local")
 	if bout, err := build.CombinedOutput(); err != nil {
 		return "", "native build of the harness failed: " + truncateStr(string(bout), 600)
 	}
